@@ -42,8 +42,11 @@ func KeyUsageIsPresent(keyUsages x509.KeyUsage, usage x509.KeyUsage) bool {
 // GetKeyUsageStrings returns a list of included key usages
 func GetKeyUsageStrings(keyUsages x509.KeyUsage) []string {
 	var keyUsageStrings []string
-	for ku, name := range KeyUsageToString {
-		if KeyUsageIsPresent(keyUsages, ku) {
+	// Walk the bits in ascending order rather than ranging over the map so
+	// that the returned list is the same on every call.
+	for ku := x509.KeyUsageDigitalSignature; ku <= x509.KeyUsageDecipherOnly; ku <<= 1 {
+		name, ok := KeyUsageToString[ku]
+		if ok && KeyUsageIsPresent(keyUsages, ku) {
 			keyUsageStrings = append(keyUsageStrings, strings.TrimPrefix(name, "KeyUsage"))
 		}
 	}
